@@ -100,11 +100,15 @@ class GuardAnalysis:
             for st in tree.body:
                 if isinstance(st, ast.Assign) and any(isinstance(t, ast.Name) and t.id == e.id for t in st.targets):
                     return self.class_atoms(st.value, fn)
+                if isinstance(st, ast.AnnAssign) and isinstance(st.target, ast.Name) and st.target.id == e.id and st.value is not None:
+                    return self.class_atoms(st.value, fn)
             return None
         if isinstance(e, ast.Attribute):
             if e.attr in self.m.classes:
                 return [("cls", e.attr)]
             return [("ext", ast.unparse(e))]
+        if isinstance(e, ast.Starred):
+            return self.class_atoms(e.value, fn)  # (A, *OTHERS)
         if isinstance(e, ast.Tuple):
             out = []
             for x in e.elts:
